@@ -1,6 +1,6 @@
 """Modules that grow the specification beyond the twenty listed properties (not registered in MANIFEST.json, run with
-`bin/check extras quick|thorough`): Refresher.tla (periodic refresh into a shared cache: HttpStatusAdapter bound, DnsDiscoveryAdapter
-same structure but not bindable offline) and the FixedStatus part of Builtins.tla. Same contract: TLC checks the design, the harness
+`bin/check extras quick|thorough`): Refresher.tla (periodic refresh into a shared cache: HttpStatusAdapter bound), DnsDiscovery.tla (the DNS discovery adapter: every
+history of a bounded zone space replayed against the real adapter and a loopback name server through the PASSAGE_VERIF_DNS_SERVER hook) and the FixedStatus part of Builtins.tla. Same contract: TLC checks the design, the harness
 records, TLC judges; exit 1 with EXTRA-VIOLATION lines."""
 import json
 import os
@@ -36,6 +36,28 @@ def run(prop, tier):
         bad += 1
         print("EXTRA-VIOLATION module=Refresher clauses=%s scenario=%s observed=%s" % (",".join(sorted(f["clauses"])), json.dumps(scs[f["line"] - 1]), json.dumps(obs[f["line"] - 1])[:600]))
     print("Refresher: %d scenarios of the real HttpStatusAdapter judged, %d failing" % (len(obs), len(tr.marked["FAIL"])))
+    # ---- DnsDiscovery: every history of the bounded zone space against the real adapter
+    dtier = "MC_DnsDiscoveryThorough.cfg" if tier == "thorough" else "MC_DnsDiscovery.cfg"
+    d = vlib.run_tlc("MC_DnsDiscovery", dtier, wd, workers=1, timeout=900)
+    if not d.ok:
+        raise vlib.ToolError("TLC reports %s on %s:\n%s" % (d.violated, dtier, d.output[-2000:]))
+    hd = vlib.cargo_build("hx-dns")
+    dcases = d.marked["REPLAY"]
+    dinp, doutp = os.path.join(wd, "dns_in.ndjson"), os.path.join(wd, "dns_obs.ndjson")
+    vlib.write_ndjson(dinp, dcases)
+    vlib.run_bin(hd, ["--in", dinp, "--out", doutp], timeout=900)
+    dobs = vlib.read_ndjson(doutp)
+    dt = vlib.run_tlc("Trace_DnsDiscovery", "Trace_DnsDiscovery.cfg", wd, workers=1, timeout=900, markers=("FAIL", "NOTCONSUMED", "UNUSABLE"), env_extra={"TRACE": doutp}, java_opts=["-Xss1g"])
+    if not dt.ok or dt.marked["NOTCONSUMED"] or dt.distinct != len(dobs) + 1:
+        raise vlib.ToolError("Trace_DnsDiscovery did not consume all records:\n%s" % dt.output[-2000:])
+    if len(dt.marked["UNUSABLE"]) > len(dobs) // 20:
+        raise vlib.ToolError("DnsDiscovery: %d of %d histories could not be observed (no refresh seen in time)" % (len(dt.marked["UNUSABLE"]), len(dobs)))
+    for f in dt.marked["FAIL"]:
+        bad += 1
+        if bad <= 12:
+            o = dobs[f["line"] - 1]
+            print("EXTRA-VIOLATION module=DnsDiscovery clauses=%s mode=%s zones=%s got=%s" % (",".join(sorted(f["clauses"])), o["mode"], json.dumps(o["zones"])[:700], json.dumps(o["got"])[:500]))
+    print("DnsDiscovery: %d histories exported by TLC, run on the real DnsDiscoveryAdapter, %d judged (%d unusable), %d failing" % (len(dcases), len(dobs) - len(dt.marked["UNUSABLE"]), len(dt.marked["UNUSABLE"]), len(dt.marked["FAIL"])))
     # ---- Builtins (FixedStatus part; the localization part is judged under C03)
     b = vlib.run_tlc("MC_Builtins", "MC_Builtins.cfg", wd, workers=1, timeout=600)
     if not b.ok:
